@@ -112,7 +112,7 @@ def oracle(stream, header, ops, obs):
         elif name == "is_cyclic_directed":
             if first != "bool %d" % int(has_cycle):
                 return bad(k, "is-cyclic-directed-wrong", int(has_cycle))
-        elif name in ("toposort", "toposort2"):
+        elif name in ("toposort", "toposort2", "toposort3"):
             for ln in g:
                 if ln.startswith("cycle"):
                     n = nums(ln)[0]
@@ -131,7 +131,7 @@ def oracle(stream, header, ops, obs):
                     return bad(k, "toposort-malformed")
             if name == "toposort2" and len(g) == 2 and g[0].split()[0] != g[1].split()[0]:
                 return bad(k, "toposort-reused-dfsspace-changes-the-answer")
-        elif name == "has_path":
+        elif name in ("has_path", "has_path3"):
             want = int(a[1] in reach(v, a[0]))
             if first != "bool %d" % want:
                 return bad(k, "has-path-connecting-wrong", want)
